@@ -112,6 +112,17 @@ theorem cells_never_overwritten : Gen.cellWriteFacts = [] := by decide
     Reported as `doubleclose:<file>:<function>:<scope>.<method>`. -/
 theorem scope_closed_once : Gen.doubleCloseFacts = [] := by decide
 
+/-- **getters_return_copies.**  Every `Get*` accessor of lib/query that hands out a stored view (inline tables
+    of a WITH clause, temporary tables, cached file views, stdin views) returns `view.Copy()` — own record set,
+    own records — or the result of another such accessor, on every path; and the two that own a container
+    (`InlineTableMap.Get`, `ViewMap.Get`) were found.  Evaluation filters, sorts, projects and extends the
+    records of the view it works on in place, so a stored view handed out uncopied is rewritten by merely
+    reading it.  Reported as `getter:<file>:<function>:<expression>`. -/
+theorem getters_return_copies :
+    Gen.getterFacts.all (fun f => f.how == "copy" || f.how == "delegated") = true ∧
+    Gen.getterFacts.any (fun f => f.fn == "InlineTableMap.Get" && f.how == "copy") = true ∧
+    Gen.getterFacts.any (fun f => f.fn == "ViewMap.Get" && f.how == "copy") = true := by decide
+
 /-- Why read-only trees matter (a statement about the MODEL): with an in-place store into the shared
     argument list the select clause no longer finds the function under the identifier registered a
     moment earlier, and the program text has changed (the shape of the repaired defect F8). -/
